@@ -16,13 +16,19 @@ RULE = ("dedicated command trees of depth <= 3 (every level: flags/options that 
         "letter), supplying globals at 0..4 levels at or below their definition, option values that equal "
         "subcommand names, `--` before a positional that equals a subcommand name, external subcommands followed by "
         "arbitrary tokens (dash-looking, `--`, empty, non-UTF-8); plus 0-2 token mutations (adversarial stream) and the "
-        "shared random trees of vp/gen_cmd.py (depth 3, globals 0.6, flag subcommands 0.5, aliases 0.5, external 0.3). "
+        "shared random trees of vp/gen_cmd.py (depth 3, globals 0.6, flag subcommands 0.5, aliases 0.5, external 0.3); "
+        "stream `wide` (third pass): trees of depth <= 2 with 0-2 single-valued positionals and optionally a multi-valued one "
+        "per level, subcommand_precedence_over_arg chosen independently per level, infer_subcommands, names and aliases with "
+        "common prefixes, a global option given at 0-3 levels with different values; lines place subcommand names among the "
+        "values of the multi-valued positional (swallowed / dispatched by the level's setting), select by name / alias / "
+        "every proper prefix of either (unique or ambiguous), put `--` before names; an independent reference reading "
+        "(wide_read) gives the expected chain, the positional values per level and the deepest explicit value of the global. "
         "The expected chain and the explicit occurrences per level are recomputed from the case line by a python "
         "scan that gives up (no verdict) outside the class where it is unambiguous.  A case is non-trivial when the "
         "reported chain has at least one subcommand or a global argument has an entry; distinct = distinct case text.")
 TRUSTED = [
     "Coq 8.16.1 kernel (coqc); no native_compute; theorems C09_* are 'Closed under the global context' "
-    "(ParseProofs/Chain.v imports lemmas of C07 Actions/ActionsLoop, C08 Spelling and C11 Reentrancy/ReentrancyProofs; "
+    "(ParseProofs/Chain.v and ChainWide.v import lemmas of C07 Actions/ActionsLoop, C08 Spelling and C11 Reentrancy/ReentrancyProofs; "
     "none of the axiom-dependent C11 theorems is used)",
     "extraction: ExtrOcamlBasic only, no Extract Constant; OCaml driver ocaml/c09_driver.ml + common_parse/{spec,show}.ml "
     "(prints `?` for ids a level does not define, as the harness does for entries the debug accessors refuse)",
@@ -46,35 +52,57 @@ ASSUMPTIONS = [
     "their name, name resolves to them); levels with ignore_errors and args_conflicts_with_subcommands off; an "
     "external subcommand only in a command without positionals",
     "C09_chain_globals: that some level holds an entry for the global is a hypothesis (defaults: C06)",
+    "third pass (ParseProofs/ChainWide.v): class wline (line <= gline <= wline), no premise on the selected children: per level "
+    "the option items above, values of single-valued positionals, optionally the values of one multi-valued positional "
+    "(pos_plain: no low-index multiples, no allow_missing_positional; the positional is not last / trailing-var-arg, no value "
+    "is its terminator; values are plain words: not `--`, not a long, not a short; the first value of a positional is not a "
+    "subcommand of the level; the further values of a multi-valued positional may be subcommand names unless THIS level has "
+    "subcommand_precedence_over_arg); a level ends with the end of the line, with `--` + an arbitrary tail (command without "
+    "external subcommands), with a selecting token (name/alias, with infer_subcommands the unique prefix of a name or alias or "
+    "an exact name, `--sub`, `-S`, first letter of a cluster; behind multi-values only a name and only with precedence) or with "
+    "an external subcommand; C09_levels_own_entries / C09_deepest_explicit_line: class wsplit (levels left through name / `--sub` selections)",
 ]
 TECHNIQUE = ("Coq proof (closed form of ArgMatcher::fill_in_global_values for chains of any depth; "
-             "_propagate_global_args/_build_subcommand copy global definitions to every depth; the token loop of "
-             "Parser::parse never touches the recorded subcommand; option prefixes (`--flag`, `--opt=v`, `--opt v`, `-ov`, `-o v`, `-abc`) "
-             "are consumed item by item and the loop reaches the subcommand token in state ValuesDone; by induction on the "
-             "nesting a successful parse of `pre_0 n_1 pre_1 ... n_k pre_k` reports exactly the canonical names selected "
-             "(name, alias, long flag, short flag alone, first letter of a cluster; external subcommand last with its "
-             "arguments verbatim), each level computed from its own prefix and definition; the chain composed with the "
-             "globals merge) + extracted-model/implementation correspondence + direct python oracle")
+             "_propagate_global_args/_build_subcommand copy global definitions to every depth, also into a user-defined `help`; "
+             "the token loop of Parser::parse never touches the recorded subcommand; the arguments of a level (`--flag`, `--opt=v`, "
+             "`--opt v`, `-ov`, `-o v`, `-abc`, values of single-valued positionals, the values of a multi-valued positional) are "
+             "consumed item by item; closed form of possible_subcommand with infer_subcommands (unique prefix of a name or alias "
+             "resolves to the one subcommand it matches, ambiguous prefix rejected); no dispatch after `--` for any state; by "
+             "induction on the nesting a successful parse of `args_0 n_1 args_1 ... n_k args_k` reports exactly the canonical "
+             "names selected (name, alias, inferred prefix, long flag, short flag alone, first letter of a cluster; a name behind "
+             "multi-values is swallowed or dispatched by the subcommand_precedence_over_arg of that level; external subcommand last "
+             "with its arguments verbatim), each level's entries = what its own tokens alone produce against its own definition; "
+             "the chain composed with the globals merge, the agreement of find_subcommand/_build_subcommand/get_used_global_args "
+             "derived from the validity gate; the deepest explicit occurrence of a global is reported at every level) "
+             "+ extracted-model/implementation correspondence + direct python oracle")
 LEVEL_TEXT = ("Machine-checked theorems (Coq 8.16, closed under the global context) about the executable model of "
               "Parser::{parse, possible_subcommand, possible_long_flag_subcommand, parse_long_arg, parse_short_arg, "
               "get_matches_with}, Command::{_propagate_global_args, _build_self, _build_subcommand, get_used_global_args, "
               "find_subcommand} and ArgMatcher::{propagate_globals, fill_in_global_values}: see evidence/C09.json for the "
-              "theorem list discharged on this run.  Whole-argv statements (C09_chain, C09_chain_short_flags, "
-              "C09_level_isolation, C09_level_entries, C09_chain_globals) hold for trees and lines of any depth in the "
-              "inductively defined classes line/gline (option prefixes of long/short flags and options and flag clusters, levels "
-              "that do not ignore errors).  The model is tied to clap_builder by running the extracted model and the real "
-              "crate (debug build) on the same generated command trees (depth <= 3) and argument vectors on every check; "
-              "the direct oracle recomputes the expected chain and the explicit occurrences from the case line and "
-              "checks chain, external arguments, per-level attribution and the agreement of every global across levels "
+              "theorem list discharged on this run.  Whole-argv statements hold for trees and lines of any depth in the "
+              "inductively defined classes line <= gline <= wline (C09_chain, C09_chain_short_flags, C09_chain_wide; "
+              "C09_chain_globals, C09_chain_globals_wide without any premise on the selected children): per level options in "
+              "six spellings, flag clusters, positionals (single-valued filled; multi-valued swallowing subcommand names unless "
+              "the level has subcommand_precedence_over_arg), selection by name / alias / unique inferred prefix / long or short "
+              "flag-subcommand / first letter of a cluster, `--` with an arbitrary tail, external subcommand last; levels do not "
+              "ignore errors.  C09_levels_own_entries: at every depth the entries of a level are exactly what its own tokens "
+              "alone produce against its own definition; C09_deepest_explicit_line: a global given at several levels is reported "
+              "everywhere with the values of the deepest level naming it.  The model is tied to clap_builder by running the "
+              "extracted model and the real crate (debug build) on the same generated command trees (depth <= 3) and argument "
+              "vectors on every check; the direct oracle recomputes the expected chain and the explicit occurrences from the case "
+              "line and checks chain, external arguments, per-level attribution and the agreement of every global across levels "
               "on the implementation's output alone.")
 LEVEL_NOTE = ("Trusted: Coq kernel, extraction, OCaml driver, Rust harness, generators, the python scan. Proved for all "
-              "inputs of the classes line/gline (ParseProofs/Chain.v): reported chain = chain named on the command line, "
-              "external arguments verbatim, level isolation (equation and entries), globals merged at every level with "
-              "explicit beating default. Outside the classes (positionals before a subcommand, `-o=v`, options inside clusters, "
-              "multi-value / require_equals / hyphen-value options, inference, ignore_errors, args_conflicts_with_subcommands) "
-              "the whole-argv statement is covered by the correspondence and the oracle. Recorded findings: `-vSy` "
-              "(parent flags before a short flag-subcommand letter with further letters) and a stale flag_subcmd_at "
-              "after a continued cluster; both are outside gline by construction.")
+              "inputs of the classes line/gline/wline/wsplit (ParseProofs/Chain.v, ChainWide.v): reported chain = chain named on "
+              "the command line (canonical names also after an inferred alias prefix; ambiguous prefix rejected; nothing "
+              "dispatched after `--`), external arguments verbatim, level isolation (equation and entries, every depth), globals "
+              "merged at every level with explicit beating default and the deepest explicit occurrence winning, a user-defined "
+              "`help` subcommand treated like any other. Outside the classes (`-o=v`, options inside clusters, multi-value / "
+              "require_equals / hyphen-value options, inferred long options and long flag-subcommands, options after the values "
+              "of a multi-valued positional, low-index multiples / allow_missing_positional, last / trailing-var-arg positionals, "
+              "ignore_errors, args_conflicts_with_subcommands) the whole-argv statement is covered by the correspondence and the "
+              "oracle. Recorded findings: `-vSy` (parent flags before a short flag-subcommand letter with further letters) and a "
+              "stale flag_subcmd_at after a continued cluster; both are outside gline/wline by construction.")
 
 
 # =============================================================================== dedicated trees
@@ -662,11 +690,10 @@ def oracle_globals(cmd, lv):
     nodes = [cmd]
     for k, (ents, sub) in enumerate(lv[:-1]):
         nx = [s for s in node["subs"] if s["name"] == sub]
-        if not nx:
-            break           # external subcommand: the chain of definitions ends here
-        # a word that EQUALS a defined subcommand's name can still have been taken as an external subcommand (e.g. after
-        # an argument under args_conflicts_with_subcommands): its matches hold the Id::EXTERNAL entry (empty id)
-        if any(e["id"] == b"" for e in lv[k + 1][0]) and (node.get("ext") or "allow_external_subcommands" in node["settings"]):
+        if not nx or any(e["id"] == b"" for e in lv[k + 1][0]):
+            # external subcommand: the chain of definitions ends here.  (Id::EXTERNAL among the entries of the next level:
+            # the word was taken as an EXTERNAL subcommand although a subcommand of that name exists — it could not be
+            # dispatched, e.g. args_conflicts_with_subcommands after an argument; that command was never entered.)
             break
         node = nx[0]
         nodes.append(node)
@@ -842,6 +869,296 @@ def classify_known(stream, case, impl, failure):
     return None
 
 
+# =============================================================================== the `wide` family (third pass)
+# Directed trees and lines for the class of ParseProofs/ChainWide.v: positionals before a subcommand name (single-valued
+# ones, then at most one multi-valued), `subcommand_precedence_over_arg` chosen independently PER LEVEL, `infer_subcommands`
+# with names/aliases sharing prefixes, `--` before a subcommand name, a global option given at several levels with different
+# values.  `wide_read` is an independent reference reading of such a line (written from the documentation of the two
+# settings, not from the Coq model); it gives up (None) on everything it is not sure about.
+W_NAMES = [b"sync", b"status", b"set", b"remove", b"run", b"rm-all", b"list"]
+W_ALIASES = [b"delete", b"store", b"rerun", b"ls", b"synchro"]
+W_WORDS = [b"a", b"b", b"x1", b"zz", b"file", b"v.txt"]
+
+
+def wide_tree(rng, depth=0, inherited_g=False):
+    c = {"name": b"p" if depth == 0 else None, "about": b"A", "args": [], "groups": [], "subs": [], "settings": [],
+         "aliases": []}
+    if depth == 0:
+        if chance(rng, 0.7):
+            c["settings"].append("infer_subcommands")         # a global setting: every level infers
+        c["args"].append({"id": b"g", "flags": {"global"}, "short": "g", "long": b"cfg", "action": "set",
+                          "default": [b"d"]})
+    if chance(rng, 0.5):
+        c["settings"].append("subcommand_precedence_over_arg")    # local: THIS level only
+    c["args"].append({"id": ("f%d" % depth).encode(), "flags": set(), "short": "v", "long": None, "action": "settrue"})
+    nsingle = rng.randrange(0, 3)
+    for k in range(nsingle):
+        c["args"].append({"id": ("s%d_%d" % (depth, k)).encode(), "flags": set()})
+    if chance(rng, 0.6):
+        c["args"].append({"id": ("m%d" % depth).encode(), "flags": set(), "action": "append", "num": (1, None)})
+    if depth < 2 and chance(rng, 0.85 if depth == 0 else 0.5):
+        names = list(W_NAMES)
+        rng.shuffle(names)
+        als = list(W_ALIASES)
+        rng.shuffle(als)
+        for n in names[:rng.randrange(1, 5)]:
+            sc = wide_tree(rng, depth + 1)
+            sc["name"] = n
+            if als and chance(rng, 0.5):
+                sc["aliases"] = [(als.pop(), chance(rng, 0.5))]
+            c["subs"].append(sc)
+    return c
+
+
+def wide_resolve(node, infer, tok):
+    """the subcommand of `node` the word `tok` selects, per the documentation: exact name or alias; with
+    infer_subcommands also the unique subcommand one of whose names starts with `tok`.  Returns (sub or None, sure)."""
+    if not node["subs"]:
+        return None, True
+    if b"help".startswith(tok) or tok.startswith(b"help"):
+        return None, False                    # the generated `help` subcommand: not this family
+    exact = [s for s in node["subs"] if tok == s["name"] or tok in [n for n, _ in s["aliases"]]]
+    if not infer:
+        return (exact[0] if exact else None), True
+    cand = [s for s in node["subs"] if s["name"].startswith(tok) or any(n.startswith(tok) for n, _ in s["aliases"])]
+    if len(cand) == 1:
+        return cand[0], True
+    if exact:
+        return exact[0], True
+    return None, True
+
+
+def wide_family(cmd, depth=0):
+    """exactly the definitions `wide_tree` produces (the shrinker removes parts of a definition: no verdict then)"""
+    if cmd.get("groups") or cmd.get("ext") or cmd.get("ext_items") or cmd.get("short_flag") or cmd.get("long_flag") \
+            or cmd.get("short_flag_aliases") or cmd.get("long_flag_aliases"):
+        return False
+    if set(cmd["settings"]) - ({"infer_subcommands", "subcommand_precedence_over_arg"} if depth == 0
+                               else {"subcommand_precedence_over_arg"}):
+        return False
+    named = [a for a in cmd["args"] if not is_pos(a)]
+    want = 2 if depth == 0 else 1
+    if len(named) != want:
+        return False
+    for a in named:
+        keys = {k for k, v in a.items() if v and k != "id"}
+        if a["id"] == b"g" and depth == 0:
+            if keys != {"flags", "short", "long", "action", "default"} or a["flags"] != {"global"} or a["short"] != "g" \
+                    or a["long"] != b"cfg" or a["action"] != "set" or a["default"] != [b"d"]:
+                return False
+        elif keys != {"short", "action"} or a["short"] != "v" or a["action"] != "settrue":
+            return False
+    seen_multi = False
+    for a in cmd["args"]:
+        if not is_pos(a):
+            continue
+        keys = {k for k, v in a.items() if v and k != "id"}
+        if seen_multi:
+            return False
+        if keys == {"action", "num"} and a["action"] == "append" and tuple(a["num"]) == (1, None):
+            seen_multi = True
+        elif keys:
+            return False
+    return all(wide_family(s, depth + 1) for s in cmd["subs"])
+
+
+def wide_read(cmd, argv):
+    """-> dict(chain=[names], levels=[dict(node, pos={id: [values]}, g=value or None)]) or None"""
+    if not wide_family(cmd):
+        return None
+    infer = "infer_subcommands" in cmd["settings"]
+    node = cmd
+    out = {"chain": [], "levels": []}
+    i = 0
+    while True:
+        singles = [a for a in node["args"] if is_pos(a) and not a.get("num")]
+        multi = [a for a in node["args"] if is_pos(a) and a.get("num")]
+        prec = "subcommand_precedence_over_arg" in node["settings"]
+        lvl = {"node": node, "pos": collections.OrderedDict(), "g": None, "flag": False}
+        nfilled, in_multi, escaped, nxt = 0, False, False, None
+        while i < len(argv):
+            tok = argv[i]
+            if not escaped and tok == b"--":
+                escaped = True
+                i += 1
+                continue
+            if not escaped and tok.startswith(b"-"):
+                if in_multi:
+                    return None               # options behind the values of a multi-valued positional: not this family
+                if tok == b"-v":
+                    if lvl["flag"]:
+                        return None
+                    lvl["flag"] = True
+                    i += 1
+                    continue
+                if tok in (b"-g", b"--cfg"):
+                    if i + 1 >= len(argv) or lvl["g"] is not None:
+                        return None
+                    v = argv[i + 1]
+                    if v.startswith(b"-") or v == b"" or not _utf8(v) or wide_resolve(node, infer, v) != (None, True):
+                        return None           # a value that could be read as a subcommand / is rejected: no verdict
+                    lvl["g"] = v
+                    i += 2
+                    continue
+                return None
+            if not escaped and (not in_multi or prec):
+                sub, sure = wide_resolve(node, infer, tok)
+                if not sure:
+                    return None
+                if sub is not None:
+                    nxt = sub
+                    i += 1
+                    break
+            elif not escaped:
+                # a word behind multi-values on a level without precedence: a value, whatever it is
+                if b"help".startswith(tok) or tok.startswith(b"help"):
+                    return None
+            if not _utf8(tok) or tok == b"":
+                return None
+            if nfilled < len(singles):
+                lvl["pos"][singles[nfilled]["id"]] = [tok]
+                nfilled += 1
+            elif multi:
+                lvl["pos"].setdefault(multi[0]["id"], []).append(tok)
+                in_multi = True
+            else:
+                return None                   # nowhere to put the word: rejected (which error is not this property)
+            i += 1
+        out["levels"].append(lvl)
+        if nxt is None:
+            return out
+        out["chain"].append(nxt["name"])
+        node = nxt
+
+
+def wide_render(rng, root, stats):
+    infer = "infer_subcommands" in root["settings"]
+    toks, node = [], root
+    while True:
+        singles = [a for a in node["args"] if is_pos(a) and not a.get("num")]
+        multi = [a for a in node["args"] if is_pos(a) and a.get("num")]
+        prec = "subcommand_precedence_over_arg" in node["settings"]
+        items = []
+        if chance(rng, 0.4):
+            items.append([b"-v"])
+        if chance(rng, 0.55):
+            items.append([pick(rng, [b"-g", b"--cfg"]), pick(rng, [b"x", b"y", b"z", b"w"])])
+            stats["global_given"] += 1
+        words = [[pick(rng, W_WORDS)] for _ in range(rng.randrange(0, len(singles) + 1))]
+        seq = items + words
+        # options and single-valued positionals interleave freely; positional order is preserved by construction
+        rng.shuffle(seq)
+        for it in seq:
+            toks += it
+        nvals = 0
+        if multi and len(words) == len(singles) and chance(rng, 0.6):
+            nvals = rng.randrange(1, 4)
+            toks.append(pick(rng, W_WORDS))
+            for _ in range(nvals - 1):
+                if node["subs"] and chance(rng, 0.5):
+                    toks.append(pick(rng, node["subs"])["name"])      # a subcommand NAME among the values
+                    stats["name_among_multi_values:%s" % ("precedence" if prec else "swallowed")] += 1
+                else:
+                    toks.append(pick(rng, W_WORDS))
+        r = rng.random()
+        if r < 0.12:
+            toks.append(b"--")
+            for _ in range(rng.randrange(0, 3)):
+                toks.append(pick(rng, [s["name"] for s in node["subs"]] + W_WORDS) if node["subs"] else pick(rng, W_WORDS))
+            stats["ended_by:escape"] += 1
+            return toks
+        if not node["subs"] or r < 0.3:
+            stats["ended_by:end"] += 1
+            return toks
+        s = pick(rng, node["subs"])
+        forms = [("name", s["name"])] * 2 + [("alias", n) for n, _ in s["aliases"]]
+        if infer:
+            forms += [("name-prefix", s["name"][:k]) for k in range(1, len(s["name"]))]
+            forms += [("alias-prefix", n[:k]) for n, _ in s["aliases"] for k in range(1, len(n))]
+        kind, tok = pick(rng, forms)
+        sub, sure = wide_resolve(node, infer, tok)
+        stats["selected_by:%s%s%s" % (kind, "" if sub is s else ("/ambiguous" if sub is None else "/other"),
+                                      ",behind-multi-values" if nvals else "")] += 1
+        toks.append(tok)
+        if sub is None or not sure or (nvals and not prec):
+            # not dispatched (ambiguous prefix / swallowed): the rest of the line belongs to this level
+            if chance(rng, 0.5):
+                toks.append(pick(rng, W_WORDS))
+            return toks
+        node = sub
+
+
+def gen_wide(rng, n, per_cmd=6):
+    stats = collections.Counter()
+    cases = []
+    while len(cases) < n:
+        c = wide_tree(rng)
+        stats["tree_depth:%d" % tree_depth(c)] += 1
+        for _ in range(per_cmd):
+            toks = wide_render(rng, c, stats)
+            if chance(rng, 0.1):
+                toks = mutate(rng, toks)
+                stats["mutated"] += 1
+            cases.append(gen_cmd.case_sx(c, [b"prog"] + toks, mode="parse"))
+            rd = wide_read(c, toks)
+            stats["read:" + ("no-verdict" if rd is None else "chain-length:%d" % len(rd["chain"]))] += 1
+            if rd is not None:
+                given = [k for k, L in enumerate(rd["levels"]) if L["g"] is not None]
+                stats["read:global given at %d level(s)" % len(given)] += 1
+    return cases[:n], dict(sorted(stats.items()))
+
+
+def oracle_wide(case, impl):
+    f = oracle(case, impl)                # chain well formed, globals agree at every level (all streams)
+    if f:
+        return f
+    p = parse_result(impl)
+    if p["kind"] not in ("ok", "err"):
+        return None
+    try:
+        cmd, argv = decode_case(case)
+    except Exception:
+        return None
+    rd = wide_read(cmd, argv[1:])
+    if rd is None:
+        return None
+    exp_chain = [n.decode() for n in rd["chain"]]
+    if p["kind"] == "err":
+        if p["ekind"] in ("DisplayHelp", "DisplayVersion"):
+            return None
+        return "wide: a valid line naming the chain %r was rejected with %s" % (exp_chain, p["ekind"])
+    lv = levels(p["m"])
+    got = [sub.decode("utf-8", "replace") for _, sub in lv if sub is not None]
+    if got != exp_chain:
+        return "wide: the line names the chain %r, reported %r" % (exp_chain, got)
+    # level isolation: the positional values of each level are the words given at that level
+    for k, L in enumerate(rd["levels"]):
+        em = ent_map(lv[k][0])
+        for a in L["node"]["args"]:
+            if not is_pos(a):
+                continue
+            e = em.get(a["id"])
+            want = L["pos"].get(a["id"])
+            if want is None:
+                if e is not None and e["src"] == "cmdline":
+                    return "wide: level %d reports positional %r from the command line, none was given there" % (k, a["id"])
+            elif e is None or e["src"] != "cmdline" or [v for g in e["occ"] for v in g] != want:
+                return "wide: level %d, positional %r: given %r, reported %r" % (
+                    k, a["id"], want, None if e is None else (e["src"], e["occ"]))
+    # the global `g` (defined at the root): the DEEPEST level that names it decides, at every level
+    given = [L["g"] for L in rd["levels"] if L["g"] is not None]
+    for k in range(len(rd["levels"])):
+        e = ent_map(lv[k][0]).get(b"g")
+        if given:
+            if e is None or e["src"] != "cmdline" or e["occ"] != [[given[-1]]]:
+                return "wide: global g given %r (top to bottom): level %d must report the deepest one, reports %r" % (
+                    given, k, None if e is None else (e["src"], e["occ"]))
+        elif e is None or e["src"] != "default" or e["occ"] != [[b"d"]]:
+            return "wide: global g never given: level %d must report the default, reports %r" % (
+                k, None if e is None else (e["src"], e["occ"]))
+    return None
+
+
 # =============================================================================== streams
 BOUNDARY = [b"--", b"-", b"", b"-x", b"-S", b"-Sq", b"-vS", b"--syncf", b"--syncf=v", b"sync", b"sy", b"s", b"help",
             b"\xff", b"--out", b"--out=", b"-o", b"-ov", b"--verbose", b"-v", b"ext", b"--", b"-SQ", b"-QS"]
@@ -928,4 +1245,6 @@ def streams(tier, rng):
     out.append(Stream("shared-trees", c4, oracle=oracle, area="c09", project=project, nontrivial=nontrivial,
                       describe={"generator": "vp/gen_cmd.py Profile(depth=3, globals=0.6, flag_subs=0.5, aliases=0.5, "
                                              "external=0.3, invalid=0, relations=0.1, groups=0.1)"}))
+    c5, d5 = gen_wide(rng, 2500 if quick else 40000)
+    out.append(Stream("wide", c5, oracle=oracle_wide, area="c09", project=project, nontrivial=nontrivial, describe=d5))
     return out
